@@ -1,6 +1,7 @@
 package main
 
 import (
+	"crypto/sha256"
 	"fmt"
 	"sort"
 	"strings"
@@ -664,6 +665,19 @@ func propC08(c *Ctx) {
 			if ms[i] != ss[i] {
 				r.stale(Violation{Kind: "impl≠model", Class: "model-list", Op: ops[i], Model: ms[i], Spec: ss[i]})
 			}
+		}
+	}
+	// an anchor that does not come from this repository: the published SHA-256 of english.txt
+	{
+		h := sha256.Sum256([]byte(strings.Join(c.canonWords(int64(langVals[2])), "\n") + "\n"))
+		r.count("english-digest")
+		if hx(h[:]) != "2f5eed53a4727b4bf8880d8f3f199efc90e58503646d9ff8eff3a2ed3b24dbda" {
+			r.violate(Violation{Kind: "property", Class: "english-digest", Op: "sha256(english list, one word per line)", Impl: hx(h[:]),
+				Spec: "2f5eed53a4727b4bf8880d8f3f199efc90e58503646d9ff8eff3a2ed3b24dbda", Detail: "the pinned canonical English list is not the published BIP39 english.txt"})
+		}
+		for li := range langVals {
+			hh := sha256.Sum256([]byte(strings.Join(c.canonWords(int64(langVals[li])), "\n") + "\n"))
+			r.note("sha256 of the canonical %s list (one word per line, LF-terminated): %s", langNames[li], hx(hh[:]))
 		}
 	}
 	r.Exhaustive = true
